@@ -118,7 +118,7 @@ class Context:
     def add(self, ob):
         """Register an obligation (dedupe by name+goal text)."""
         key = (ob.name, ob.goal.sexpr() if hasattr(ob.goal, "sexpr") else str(ob.goal),
-               len(ob.pc) if ob.view != "custom" else 0)
+               hash(tuple(c.get_id() if hasattr(c, "get_id") else str(c) for c in ob.pc)) if ob.view != "custom" else 0)
         if key in self._names:
             return
         self._names.add(key)
@@ -145,7 +145,8 @@ class Context:
         for r in results:
             self.paths += 1
             for ob in r.obligations:
-                self.add(ob)
+                if ob.props & self.props:
+                    self.add(ob)
         self.gen_time += time.time() - t0
 
     def lemma(self, name, goal, hyps=(), props=(), expect="unsat", meta=None, kind="lemma"):
